@@ -28,8 +28,8 @@ def run(tier: str, seed: int, only=None) -> Result:
     res = Result("C10", tier, seed, "model_checking")
     res.assumptions = [
         "mirsym trusted base (see C03/C04/C05)",
-        "compiler half: only the optimiser's constant-folding gate is within reach of the solver (is_error_safe), see C02; "
-        "panics elsewhere in gen_uplc are outside this claim",
+        "compiler half: the optimiser's constant folder (is_error_safe gate vs the evaluation it guards, family `fold`, first-order constant kinds); "
+        "panics elsewhere in gen_uplc are outside the solver claim (C02 reports the ones its corpus reaches)",
         "hangs: not decided by the solver; termination argument in DESIGN.md",
     ]
     res.extra["explanation"] = "re-runs the symbolic-execution obligations of C03, C04, C05 and reports every feasible panic / arithmetic-overflow path"
@@ -60,6 +60,12 @@ def run(tier: str, seed: int, only=None) -> Result:
                 nb.detail = "no panic path (a functional deviation is reported under the owning property)"
             res.add(nb)
         res.samples += sub.samples[:2]
-    from props import common_post
-    common_post.postprocess(res, kf, replay_fn=None)
+    if not only or only == "fold":
+        from mirsym.world import World
+        from props import c10_fold
+        t = time.time()
+        c10_fold.fold_family(World(("uplc",), deps=("pallas-codec",)), res, tier)
+        log(f"[C10] fold: {time.time() - t:.1f}s")
+    from props import common_post, c10_fold as CF
+    common_post.postprocess(res, kf, replay_fn=lambda ob: CF.replay(ob) if ob.name.startswith("fold/") else (None, "not replayable through a public entry point; model re-evaluated in the encoder only"))
     return res
